@@ -34,7 +34,7 @@ Names == [ times |-> <<"spike_times.npy", "spikes.times.npy">>,
            tfind |-> <<"template_feature_ind.npy", "-">> ]
 Items == DOMAIN Names
 Mandatory == {"times", "st", "chmap", "pos", "T"}
-\* optional items that are chosen independently (pcind / tfind follow pcf / tf; wmi requires wm)
+\* optional items that are chosen independently (pcind / tfind follow pcf / tf; an inverse file may exist without the matrix itself)
 Switches == {"sc", "amps", "shanks", "probes", "Tind", "wm", "wmi", "sim", "pcf", "tf", "samples"}
 MemoryMapped == {"T", "pcf", "pcind", "tf"}
 CanBeBoth == {"amps", "chmap", "st", "T"}          \* items written under both names when WithBoth
@@ -52,7 +52,7 @@ FsOf(nm, pr, bo) ==
 Pick == /\ pc = "pick" /\ naming' \in Namings /\ pc' = "pick2"
         /\ UNCHANGED <<present, both, fs, attr, created, status>>
 Pick2 == /\ pc = "pick2"
-         /\ present' \in {p \in SUBSET Switches : ("wmi" \in p => "wm" \in p) /\ ("samples" \in p => naming = "alf")}
+         /\ present' \in {p \in SUBSET Switches : "samples" \in p => naming = "alf"}
          /\ both' \in (IF WithBoth THEN {{}} \cup {{b} : b \in CanBeBoth} ELSE {{}})
          /\ fs' = FsOf(naming, present', both')
          /\ pc' = "load" /\ UNCHANGED <<naming, attr, created, status>>
